@@ -266,7 +266,7 @@ func (hp *HTTPProxy) configureHTTPS() error {
 	if hp.config.CertFile == "" && hp.config.KeyFile == "" {
 		hp.log.Info("no TLS certificate provided, using self-signed certificate")
 	} else {
-		hp.log.Debug("loading TLS certificate", "cert", hp.config.CertFile, "key", hp.config.KeyFile)
+		hp.log.Debug("loading TLS certificate", "cert", hp.config.CertFile, "key", redactData(hp.config.KeyFile))
 	}
 
 	hp.tlsConfig = httpsTLSConfigTemplate()
